@@ -468,7 +468,9 @@ Inductive op :=
 | OMgrDel (n : Z)                        (* Mgr.DelSche(name n) *)
 | OConc (mode : Z) (progs : list (list kind))   (* fresh Sche, real consumer loop, concurrent posters *)
 | OConcN (mode np n : Z)                 (* OConc mode (np programs of n returning closures) *)
-| OConcW (mode : Z) (chains : list (list beh)). (* fresh Sche, real Handler, concurrent chains *)
+| OConcW (mode : Z) (chains : list (list beh))  (* fresh Sche, real Handler, concurrent chains *)
+| OConcReg (trials g : Z).               (* per trial a fresh name: NewRunService(name).Start() races with g goroutines doing
+                                            GetScheMgr().GetSche(name).Post(f); expected: one scheduler, every f runs once: no event *)
 
 Inductive sev :=
 | SExec (p n : Z)
@@ -537,6 +539,7 @@ Definition valid_op (o : op) : bool :=
                      && (in_range 0 m 2 || negb (has_panic progs))
   | OConcN m np n => in_range 0 m 5 && in_range 0 np 65 && in_range 0 n 20001
   | OConcW m _ => in_range 0 m 2
+  | OConcReg t g => in_range 0 t 5001 && in_range 1 g 33
   end.
 
 (* chain scripts never fill the queue: a Post made by the consumer goroutine itself on a full
@@ -872,7 +875,7 @@ Definition w_op (w : wst) (o : op) : wst * list sev :=
       (mkW (w_q w) (w_stopped w) (w_chains w) m (w_seq w) (w_posts w), [SMgr id])
   | OMgrDel n =>
       (mkW (w_q w) (w_stopped w) (w_chains w) (m_del (w_mgr w) n) (w_seq w) (w_posts w), [])
-  | OConc _ _ | OConcN _ _ _ | OConcW _ _ => (w, [])
+  | OConc _ _ | OConcN _ _ _ | OConcW _ _ | OConcReg _ _ => (w, [])
   end.
 
 Fixpoint w_ops (w : wst) (ops : list op) : wst * list (list sev) :=
